@@ -171,6 +171,9 @@ func c03Types(c *work.Ctx) {
 				reported[key] = true
 				kind := kinds[i]
 				bv := blame(v, func(cv reflect.Value) bool {
+					if fatalPlaced(cv.Type(), p) {
+						return false // a component that alone is a listed fatal shape is not executed here
+					}
 					xx := place(cv, p)
 					w := runEnc(func(x interface{}) ([]byte, error) { return stdjson.Marshal(x) }, xx)
 					k, _ := c03Judge(e, runEnc(e.run, xx), !w.panicked && w.err != nil)
